@@ -425,6 +425,12 @@ fn gen_notation(prop: &str, n: usize, rng: &mut StdRng, sink: &mut Sink) {
                 let t = notation::mutate(rng, &r.as_fen());
                 sink.emit(&notation::fen_parse_event(&t));
             }
+            // the longest FENs there are (89..93 bytes): dense boards, all rights, e.p., five-digit counters
+            for i in 0..(n / 8).max(24) {
+                let b = if i < posgen::DENSE_FENS.len() { owlchess::Board::from_fen(posgen::DENSE_FENS[i]).unwrap() } else { posgen::dense(rng) };
+                sink.begin(&json!({"prop": prop, "dense": i}));
+                sink.emit(&notation::fen_board_event(&b));
+            }
             // every run-length pattern of one rank: 2^8 occupancy masks
             for mask in 0..256u32 {
                 let mut r = owlchess::RawBoard::empty();
@@ -472,6 +478,7 @@ fn gen_notation(prop: &str, n: usize, rng: &mut StdRng, sink: &mut Sink) {
             let mut valid: Vec<String> = vec!["e2e4".into(), "e7e8q".into(), "0000".into(), "O-O".into(), "O-O-O+".into(),
                 "Nbd2".into(), "exd5".into(), "e8=Q#".into(), "dcB".into(), "KQkq".into(), "-".into(), "w".into(), "b".into(),
                 "e4".into(), "a1".into(), "h8".into(), "P".into(), "k".into(), ".".into(), "Qh4xe1++".into(), "R1a3".into()];
+            valid.extend(posgen::DENSE_FENS.iter().map(|s| s.to_string()));
             for b in positions.iter().take(if deep { 400 } else { 40 }) {
                 valid.push(b.as_fen());
                 for m in owlchess::movegen::legal::gen_all(b).iter().take(6) {
@@ -555,6 +562,14 @@ fn gen_misc(prop: &str, n: usize, rng: &mut StdRng, sink: &mut Sink) {
             let valid = posgen::mixed(rng, (n / 8).max(120));
             for b in valid.iter() {
                 sink.emit(&misc::rawval_event(b.raw()));
+                // the same men, rights and e.p. square with other counters, validated straight afterwards
+                // (a result remembered from the previous call must not leak into this one)
+                let mut r = *b.raw();
+                r.move_number = r.move_number.wrapping_add(1 + rng.gen_range(0..3));
+                if rng.gen_bool(0.5) {
+                    r.move_counter = r.move_counter.wrapping_add(1);
+                }
+                sink.emit(&misc::rawval_event(&r));
             }
             for r in misc::raw_stream(rng, &valid, n) {
                 sink.begin(&json!({"prop": prop, "rawfen": r.as_fen(), "ep": r.ep_source.map(|c| c.index())}));
